@@ -127,6 +127,38 @@ def keptTextL (L : Lists) (c : Cfg) (d : Nat) : List Node → Str
   | n :: t => keptText L c d n ++ keptTextL L c d t
 end
 
+mutual
+/-- The elements of a forest in document order (name and attributes). -/
+def elemsOf : Node → List (Str × List Attr)
+  | .elem n as cs => (n, as) :: elemsOfL cs
+  | .text _ => []
+  | .other => []
+def elemsOfL : List Node → List (Str × List Attr)
+  | [] => []
+  | n :: t => elemsOf n ++ elemsOfL t
+end
+
+mutual
+/-- The elements that must survive sanitization, in document order: outside dropped subtrees
+(`keptText`), every element whose name — after the documented replacements — is allowed and whose
+attribute values are all acceptable is kept, with its attribute set filtered
+(`cleanAttrs`: disallowed attributes and classes taken out); every other element there is merely
+not allowed: it goes, its descendants stay. `d` counts all element ancestors in the input. -/
+def keptElems (L : Lists) (c : Cfg) (d : Nat) : Node → List (Str × List Attr)
+  | .elem n as cs =>
+    let n' := replaceNameOf L c n
+    let as' := replaceAttrsOf L c n as
+    if elemRemoved c n' || depthExceeded L c d then []
+    else if elemOk L c n' && as'.all (fun a => valueOk L c n' a.name a.value) then
+      (n', cleanAttrs L c n' as') :: keptElemsL L c (d + 1) cs
+    else keptElemsL L c (d + 1) cs
+  | .text _ => []
+  | .other => []
+def keptElemsL (L : Lists) (c : Cfg) (d : Nat) : List Node → List (Str × List Attr)
+  | [] => []
+  | n :: t => keptElems L c d n ++ keptElemsL L c d t
+end
+
 /-- An element with this name and these attributes, `d` element ancestors deep, is kept as it is:
 the name is allowed, the depth is within the limit, every attribute is allowed on it and carries an
 acceptable value, and every class is allowed. -/
